@@ -47,7 +47,7 @@ func verifyPackedAttestationStatementCertificate(
 	clientDataJSONHash ClientDataJSONHash,
 	certificate *x509.Certificate,
 ) error {
-	authenticatorData, err := attestationObject.UnmarshalAuthenticatorData()
+	authenticatorData, err := attestationObject.unmarshalAttestedAuthenticatorData()
 	if err != nil {
 		return fmt.Errorf("%w: %s", ErrInvalidAttestationStatement, err)
 	}
@@ -118,7 +118,7 @@ func verifyPackedAttestationStatementSelfAttestation(
 	attestationObject *AttestationObject,
 	clientDataJSONHash ClientDataJSONHash,
 ) error {
-	authenticatorData, err := attestationObject.UnmarshalAuthenticatorData()
+	authenticatorData, err := attestationObject.unmarshalAttestedAuthenticatorData()
 	if err != nil {
 		return fmt.Errorf("%w: %s", ErrInvalidCertificate, err)
 	}
